@@ -8,38 +8,43 @@ CONSTANTS MaxChunks,   \* chunks per recording
           Gaps,        \* tick gaps
           SnapSizes,   \* compressed sizes of snapshots / deltas (realised by the harness)
           MsgCodes,    \* messages: 4 * compressed size + (length mod 4) (realised by the harness)
-          WideCodes    \* messages by varint width class: 16 * (4 * compressed size + length mod 4) + class 1..15
+          WideCodes,   \* messages by varint width class: 16 * (4 * compressed size + length mod 4) + class 1..15
+          Modes,       \* of the long recordings (header variant 1): 10 * mode + src (see Demo!HeaderOk)
+          ModeChunks   \* chunks per recording of the modes other than 0 (dedicated functions, bytes in one piece)
 
 Hdr(i) ==
   CASE i = 1 -> [a |-> "new", nv |-> 0, mn |-> 0, ts |-> 0, kind |-> "client", sha |-> FALSE, map |-> 0,
-                 crc |-> 0, length |-> 0]
+                 crc |-> 0, length |-> 0, src |-> 0, mode |-> 0]
     [] i = 2 -> [a |-> "new", nv |-> 63, mn |-> 63, ts |-> 19, kind |-> "server", sha |-> TRUE, map |-> 5,
-                 crc |-> 2147483647, length |-> 2147483647]
+                 crc |-> 2147483647, length |-> 2147483647, src |-> 1, mode |-> 1]
     [] i = 3 -> [a |-> "new", nv |-> 1, mn |-> 63, ts |-> 0, kind |-> "client", sha |-> TRUE, map |-> 0,
-                 crc |-> 305419896, length |-> 1]
+                 crc |-> 305419896, length |-> 1, src |-> 4, mode |-> 2]
     [] i = 4 -> [a |-> "new", nv |-> 63, mn |-> 0, ts |-> 19, kind |-> "server", sha |-> FALSE, map |-> 300,
-                 crc |-> 1, length |-> 0]
+                 crc |-> 1, length |-> 0, src |-> 3, mode |-> 1]
 
 StartTick(i) == CASE i = 1 -> 0 [] i = 2 -> 7 [] i = 3 -> -5 [] i = 4 -> 2147483600 [] i = 5 -> MinInt
 
-Limit == IF phase = "open" /\ hdr.nv = 0 /\ ~hdr.sha THEN MaxChunks ELSE 1
+Limit == IF phase = "open" /\ hdr.nv = 0 /\ ~hdr.sha THEN (IF hdr.src = 0 /\ hdr.mode = 0 THEN MaxChunks ELSE ModeChunks) ELSE 1
+\* the entry point of the next call under the recording's mode
+Via == IF phase # "open" THEN "fn" ELSE CASE hdr.mode = 0 -> "fn" [] hdr.mode = 1 -> "chunk" [] OTHER -> IF n % 2 = 0 THEN "chunk" ELSE "fn"
 
-NNew == phase = "idle" /\ \E i \in Headers : Step(Hdr(i))
+NNew == phase = "idle" /\ \E i \in Headers :
+           IF i = 1 THEN \E m \in Modes : Step([Hdr(1) EXCEPT !.src = m % 10, !.mode = m \div 10]) ELSE Step(Hdr(i))
 NTick == /\ n < Limit
          /\ \E kf \in BOOLEAN :
               IF wprev.has
-              THEN \E g \in Gaps : wprev.t <= MaxInt - g /\ Step([a |-> "tick", t |-> wprev.t + g, kf |-> kf])
-              ELSE \E s \in StartTicks : Step([a |-> "tick", t |-> StartTick(s), kf |-> kf])
+              THEN \E g \in Gaps : wprev.t <= MaxInt - g /\ Step([a |-> "tick", t |-> wprev.t + g, kf |-> kf, via |-> Via])
+              ELSE \E s \in StartTicks : Step([a |-> "tick", t |-> StartTick(s), kf |-> kf, via |-> Via])
 NSnap == /\ n < Limit
          /\ \E k \in {"snapshot", "delta"}, s \in SnapSizes :
-              Step([a |-> "data", kind |-> k, id |-> n + 1, csize |-> s, m4 |-> 0, w |-> 0])
+              Step([a |-> "data", kind |-> k, id |-> n + 1, csize |-> s, m4 |-> 0, w |-> 0, via |-> Via])
 NMsg == /\ n < Limit
         /\ \E c \in MsgCodes :
-              Step([a |-> "data", kind |-> "message", id |-> n + 1, csize |-> c \div 4, m4 |-> c % 4, w |-> 0])
+              Step([a |-> "data", kind |-> "message", id |-> n + 1, csize |-> c \div 4, m4 |-> c % 4, w |-> 0, via |-> Via])
 NWide == /\ n < Limit
          /\ \E c \in WideCodes :
               Step([a |-> "data", kind |-> "message", id |-> n + 1, csize |-> (c \div 16) \div 4,
-                    m4 |-> (c \div 16) % 4, w |-> c % 16])
+                    m4 |-> (c \div 16) % 4, w |-> c % 16, via |-> Via])
 Next == NNew \/ NTick \/ NSnap \/ NMsg \/ NWide
 Spec == Init /\ [][Next]_vars
 
